@@ -154,7 +154,7 @@ def big_graph(rng, n):
 
 def base_graph(rng, maxn, big):
     if big:
-        n = rng.randint(max(8, maxn // 4), maxn)
+        n = rng.randint(*maxn) if isinstance(maxn, tuple) else rng.randint(max(8, maxn // 4), maxn)
         g = big_graph(rng, n)
         g, style = gen.weigh(rng, g, rng.choice(["unit", "ties", "ties", "wide"]))
     else:
@@ -402,6 +402,7 @@ def check(tier, seed):
         if cgroups: evaluate(c, exe, cgroups, refok, tier)
         if tier == "quick":
             groups = make_groups(c.rng, 300, 14, False, (8, 3)) + make_groups(c.rng, 100, 30, False, (5, 3)) + make_groups(c.rng, 40, 30, True, (5, 3))
+            groups += make_groups(c.rng, 2, (260, 330), True, (2, 2))          # a few graphs beyond 255 vertices / edges (narrow index types) in the quick tier too
             evaluate(c, exe, groups, refok, tier)
         else:
             groups = make_groups(c.rng, 500, 14, False, (8, 4)) + make_groups(c.rng, 220, 40, False, (6, 4))
